@@ -3,7 +3,7 @@
    dead_sound: no word of the content model dominates the children), ALIVE only by a checked witness (witness_sound).
    Refutations: states the faithful model accepts although they are provably dead. *)
 From MX Require Import Spec.Particle Spec.Deriv Spec.Parikh Gen.Names Gen.Templates Gen.Schema Gen.Lib Model.Tables Model.PyM Model.PyObs
-  Model.AbsSeq Model.AbsSeqC02 Model.Classes Model.SeqMachine Model.SeqComplete Model.ChoiceSeq Model.ChoiceClass Model.ChoiceC02 Model.ChoiceComplete.
+  Model.AbsSeq Model.AbsSeqC02 Model.Classes Model.SeqMachine Model.SeqComplete Model.ChoiceSeq Model.ChoiceClass Model.ChoiceC02 Model.ChoiceComplete Model.AbsBag Model.BagMore.
 From Coq Require Import List Bool Arith.
 Import ListNotations.
 
@@ -42,6 +42,18 @@ Qed.
 Print Assumptions C07_partial_choice.
 Example C07_choice_premises : forallb (fun kl => negb (is_cseq (snd kl)) || match slots_of (snd kl) with Some t => forallb c07_ok t | None => false end) lib_templates = true
   /\ List.length (filter (fun kl => is_cseq (snd kl)) lib_templates) = 8%nat.
+Proof. vm_compute. auto. Qed.
+
+(* the bag machine (measure, dynamics, articulations, technical, encoding, play, listen, name-display, notehead-text): every reachable
+   state is at most one accepted child away from a passing final check *)
+Theorem C07_partial_bag : forall k l a mn, In (k, l) lib_templates -> is_bag l = true -> bag_of 10 l = Some (a, mn) ->
+  forall ops, exists w, List.length w <= 1 /\ Forall (fun o => o = BOk) (bouts a (brun a ops) (map BAdd w))
+            /\ bverdict mn (fold_left (fun s o => fst (bstep a s o)) (map BAdd w) (brun a ops)) = true.
+Proof.
+  intros k l a mn _ Ib B ops. apply (C07_bag l a mn ops B). unfold is_bag in Ib. rewrite B in Ib. destruct a; [discriminate|discriminate].
+Qed.
+Print Assumptions C07_partial_bag.
+Example C07_bag_nonvacuous : List.length (filter (fun kl => is_bag (snd kl)) lib_templates) = 9%nat /\ is_bag tpl_Measure = true.
 Proof. vm_compute. auto. Qed.
 
 (* ---- refutations on the faithful model ---- *)
